@@ -31,7 +31,7 @@ func e2eAlphabet() []e2eElem {
 	pick := [][2]interface{}{
 		{"protocolIdentifier", uint32(0)}, {"flowType", registry.AntreaEnterpriseID}, // u8
 		{"sourceTransportPort", uint32(0)}, {"destinationServicePort", registry.AntreaEnterpriseID}, {"sourceTransportPort", registry.IANAReversedEnterpriseID}, // u16
-		{"ingressInterface", uint32(0)}, // u32
+		{"ingressInterface", uint32(0)},                                                                                                     // u32
 		{"octetDeltaCount", uint32(0)}, {"octetDeltaCount", registry.IANAReversedEnterpriseID}, {"throughput", registry.AntreaEnterpriseID}, // u64
 		{"verifSigned8", uint32(verifPEN)}, {"verifSigned16", uint32(verifPEN)},
 		{"mibObjectValueInteger", uint32(0)}, {"ingressNetworkPolicyRulePriority", registry.AntreaEnterpriseID}, // i32
@@ -152,6 +152,10 @@ func e2eValues(ie *entities.InfoElement, small bool) [][]byte {
 	default:
 		add(make([]byte, w))
 		add(bytes.Repeat([]byte{0xff}, w))
+		if ie.DataType == entities.Ipv6Address {
+			// an IPv4-mapped address is an ordinary ipv6Address value
+			add([]byte{0, 0, 0, 0, 0, 0, 0, 0, 0, 0, 0xff, 0xff, 10, 1, 2, 3})
+		}
 		one := make([]byte, w)
 		one[w-1] = 1
 		add(one)
@@ -235,8 +239,12 @@ func (c e2eCase) dataSetOn(reuse entities.Set, id uint16, recs [][][]byte, varia
 	if err := set.PrepareSet(entities.Data, id); err != nil {
 		panic(err)
 	}
+	scratch := make([]entities.InfoElementWithValue, len(c.elems)) // AddRecord copies: its caller may refill one slice for every record
 	for _, r := range recs {
 		els := make([]entities.InfoElementWithValue, len(c.elems))
+		if variant%2 == 0 {
+			els = scratch
+		}
 		for i, e := range c.elems {
 			els[i] = e2eValue(e.ie, r[i])
 		}
